@@ -23,10 +23,9 @@ Proof.
   intros c Hf Hd. assert (Hb := Hd). split_dom Hb D2 D1 D0 D.
   unfold keywords_ok in D0. apply andb_true_iff in D0 as [K _].
   unfold m_call, s_call, m_member. destruct Hf as [F|F]; rewrite F in *; cbn in D, K.
-  - apply andb_true_iff in D as [L T].
-    destruct (c_seq c) eqn:S; try discriminate L; cbn [elems].
+  - destruct (c_seq c) eqn:S; try discriminate D; cbn [elems].
     + reflexivity.
-    + destruct (c_test c); try discriminate T; now rewrite drop_until_eq.
+    + destruct (c_test c); now rewrite drop_until_eq.
   - destruct (c_seq c) eqn:S; try discriminate D; cbn [elems].
     + reflexivity.
     + destruct (c_test c); try discriminate K. now rewrite drop_until_eq.
@@ -58,12 +57,10 @@ Proof.
       destruct (c_seq c); try discriminate; reflexivity. }
   unfold m_call, s_call, m_assoc, s_assoc. rewrite S.
   destruct (c_fn c) eqn:F; try discriminate Hf; cbn in D, K.
-  - apply andb_true_iff in D as [_ T]. f_equal.
-    destruct (c_test c) eqn:E; try discriminate T; rewrite <- E in *; rewrite assoc_find_eq; reflexivity.
+  - reflexivity.
   - destruct (c_test c); try discriminate K. reflexivity.
   - destruct (c_test c); try discriminate K. reflexivity.
-  - apply andb_true_iff in D as [_ T]. f_equal.
-    destruct (c_test c) eqn:E; try discriminate T; rewrite <- E in *; rewrite assoc_find_eq; reflexivity.
+  - reflexivity.
   - destruct (c_test c); try discriminate K. reflexivity.
 Qed.
 
